@@ -4,6 +4,8 @@ package main
 
 import (
 	"bytes"
+	"path/filepath"
+	"sort"
 	"strings"
 	"time"
 )
@@ -17,6 +19,30 @@ import (
 // of data and the 214 reply are the transaction's final replies, however
 // many there are (one per recipient, or a single 554).
 func init() {
+	// c01_usage: per store file, the total size_bytes of the messages linked in a
+	// mailbox (what the quota check measures), read-only.
+	register("c01_usage", func(w *World, op Op) Obs {
+		out := map[string]interface{}{}
+		files, _ := filepath.Glob(filepath.Join(w.dataDir, "*.db"))
+		sort.Strings(files)
+		for _, f := range files {
+			base := strings.TrimSuffix(filepath.Base(f), ".db")
+			if base == "shared" {
+				continue
+			}
+			d, err := openRO(f)
+			if err != nil {
+				continue
+			}
+			rows, err := queryRows(d, `SELECT COALESCE(SUM(m.size_bytes), 0) FROM messages m
+				JOIN message_mailbox mm ON m.id = mm.message_id JOIN mailboxes mb ON mm.mailbox_id = mb.id`)
+			if err == nil && len(rows) == 1 {
+				out[base] = rows[0][0]
+			}
+			d.Close()
+		}
+		return Obs{"usage": out}
+	})
 	register("c01_txn", func(w *World, op Op) Obs {
 		cl, ok := w.conns[op.str("conn")]
 		if !ok {
